@@ -37,7 +37,7 @@ def gen_case(seed, i):
     # which some transforms fail for some files only
     text = False
     if rng.random() < 0.25:
-        t = rng.choice([x for x in xform.TRANSFORMS if "--in-place" not in x[1] and "$OUT" not in x[0]])
+        t = rng.choice([x for x in xform.TRANSFORMS if "$OUT" not in x[0] and not ("--in-place" in x[1] and "--no-copy" in x[1])])
         base = dict(base, transform=t[0], transform_flags=list(t[1]))
         text = rng.random() < 0.5
     b = base["bounds"]
@@ -114,6 +114,20 @@ def gen_case(seed, i):
         if rng.random() < 0.2:
             t = rng.choice([x for x in xform.TRANSFORMS if "--in-place" not in x[1] and "$OUT" not in x[0]])
             cfg = dict(cfg, transform=t[0], transform_flags=list(t[1]))
+        tf_ = cfg.get("transform")
+        if tf_ and "$IN" in tf_ and "$OUT" not in tf_ and rng.random() < 0.3:
+            # the same command, used the other way: its result taken from the (copied) input file instead of from
+            # its standard output, or the other way round; or run on the file itself where it only reads
+            fl_ = list(cfg.get("transform_flags") or [])
+            if "--in-place" in fl_:
+                fl_.remove("--in-place")
+            elif "--no-copy" in fl_:
+                fl_.remove("--no-copy")
+            elif tf_.split(" ")[0] in ("cat", "head", "base64", "od") and rng.random() < 0.5:
+                fl_.append("--no-copy")
+            else:
+                fl_.append("--in-place")
+            cfg = dict(cfg, transform_flags=fl_)
         step = {"edits": edits, "cfg": cfg, "dt": rng.choice([10**6, 10**6, 2 * 10**6, 7 * 10**6, 10**9, 3600 * 10**9])}
         steps.append(step)
     if rng.random() < 0.2 and len(steps) >= 2:
